@@ -2,6 +2,7 @@ package routing
 
 import (
 	"fmt"
+	"math/bits"
 	"net/netip"
 )
 
@@ -45,10 +46,14 @@ func (g *Gateway) String() string {
 	return fmt.Sprintf("{addr: %s, weight: %d}", g.addr, g.weight)
 }
 
-// Divide and round to nearest integer
+// Divide v<<31 by d and round to nearest integer. The shifted value no longer
+// fits in 64 bits once the weights add up to 2^33 or more (five gateways of
+// the maximum weight), so the intermediate is kept in 128 bits.
 func divideAndRound(v uint64, d uint64) uint64 {
-	var tmp uint64 = v + d/2
-	return tmp / d
+	hi, lo := bits.Mul64(v, 1<<31)
+	lo, carry := bits.Add64(lo, d/2, 0)
+	q, _ := bits.Div64(hi+carry, lo, d)
+	return q
 }
 
 // Implements Hash-Threshold mapping, equivalent to the implementation in the linux kernel.
@@ -64,7 +69,7 @@ func CalculateBucketsForGateways(gateways []Gateway) {
 	var loopWeight int = 0
 	for i := range gateways {
 		loopWeight += gateways[i].weight
-		gateways[i].bucketUpperBound = int(divideAndRound(uint64(loopWeight)<<31, uint64(totalWeight))) - 1
+		gateways[i].bucketUpperBound = int(divideAndRound(uint64(loopWeight), uint64(totalWeight))) - 1
 	}
 
 }
